@@ -32,6 +32,7 @@ SHARD_TIMEOUT = {"quick": 900, "thorough": 14400}
 
 FAMILIES = {
     "c2": [("2-clique", "clique", 2)],
+    "c3": [("3-clique", "clique", 3)],
     "c2c3": [("2-clique", "clique", 2), ("3-clique", "clique", 3)],
     "c2c4": [("2-clique", "clique", 2), ("4-clique", "clique", 4)],
     "c3cyc4": [("3-clique", "clique", 3), ("4-cycle", "cycle", 4)],
@@ -95,6 +96,12 @@ def make_target(rng, G, names, kind, lam=0.8):
             qq = {k: q[t].get(k, 1e-3) for k in ks}
             z = sum(qq.values())
             qq = {k: v / z for k, v in qq.items()}
+            if kind == "disassortative" and len(ks) > 1:
+                # mass lam on the off-diagonal (in proportion to q_a q_b), 1 - lam on the diagonal (in proportion to q_a^2); full support
+                off = sum(qq[a] * qq[b] for a in ks for b in ks if a != b)
+                dia = sum(qq[a] ** 2 for a in ks)
+                T[t] = {a + b: (lam * qq[a] * qq[b] / off if a != b else (1 - lam) * qq[a] ** 2 / dia) for a in ks for b in ks}
+                continue
             l = 0.0 if kind == "product" else lam
             T[t] = {a + b: (1 - l) * qq[a] * qq[b] + (l * qq[a] if a == b else 0.0) for a in ks for b in ks}
     return T
